@@ -1,7 +1,7 @@
 #!/bin/sh
 # Evaluate a sub-agent's seeded change:  selftest/evalseed.sh <name> <worktree-with-SEEDED> <PROP> [more props...]
 # 1. confirm in a fresh scratch worktree: patch applies, 319 tests pass with it, demo FAILs with it and PASSes without
-# 2. copy to /verif/seeded/<name>/, 3. apply to /repo, run the quick checks, undo.
+# 2. copy to /verif/seeded/<name>/, 3. run the quick checks against that scratch worktree (VERIF_REPO), remove it.
 name="$1"; src="$2"; shift 2
 cd "$(dirname "$0")/.." || exit 2
 dst="seeded/$name"; mkdir -p "$dst"
@@ -15,18 +15,18 @@ if git -C "$wt/w" apply "$PWD/$dst/patch.diff" 2>"$wt/apply.err"; then applied=y
 (cd "$wt/w" && timeout 900 /venv/bin/python -m pytest -q -p no:cacheprovider --timeout=900 tests 2>&1 | tail -1 >"$wt/tests.txt")
 echo "applies=$applied demo_clean_rc=$(cat $wt/demo_clean.rc) demo_patched_rc=$(cat $wt/demo_patched.rc) tests: $(cat $wt/tests.txt)"
 tests="$(cat $wt/tests.txt)"; drc="$(cat $wt/demo_patched.rc)"; crc="$(cat $wt/demo_clean.rc)"
-git -C /repo worktree remove --force "$wt/w"; rm -rf "$wt"
 results=""
 if [ "$applied" = yes ]; then
-  git -C /repo apply "$PWD/$dst/patch.diff" || exit 2
+  # run the quick checks against the scratch worktree that has the change applied (VERIF_REPO), so that /repo itself -
+  # which background runs may be using - is never modified
   for p in "$@"; do
-    out=$(timeout 1800 ./check "$p" --tier quick --no-evidence 2>&1); rc=$?
+    out=$(VERIF_REPO="$wt/w" timeout 1800 ./check "$p" --tier quick --no-evidence 2>&1); rc=$?
     sig=$(echo "$out" | grep "^violation:" | head -2 | tr '\n' ' ' | cut -c1-300)
     echo "check $p: exit=$rc $sig"
     results="$results{\"check\": \"$p\", \"exit\": $rc, \"first_violations\": $(/venv/bin/python -c "import json,sys; print(json.dumps(sys.argv[1]))" "$sig")},"
   done
-  git -C /repo checkout -- .
 fi
+git -C /repo worktree remove --force "$wt/w"; rm -rf "$wt"
 /venv/bin/python - "$dst" "$name" "$applied" "$crc" "$drc" "$tests" "[${results%,}]" "$@" <<'PY'
 import json, sys, os
 dst, name, applied, crc, drc, tests, results = sys.argv[1:8]
